@@ -85,6 +85,13 @@ Theorem C18_u256_of_u64 : forall b, 0 <= b < 2 ^ 64 -> uval (of_u64 b) = b /\ wf
 Proof. exact of_u64_exact. Qed.
 Print Assumptions C18_u256_of_u64.
 
+(** [shl], [shr], [ubits] above are the literal C++ loops (scatter with |= / scan
+    from the top byte); they coincide with the gather formulations *)
+Theorem C18_u256_coded_loops_eq_gather : forall a sh, wf a -> 0 <= sh ->
+  shl a sh = shl_g a sh /\ shr a sh = shr_g a sh /\ ubits a = ubits_g a.
+Proof. exact shifts_coded_eq_gather. Qed.
+Print Assumptions C18_u256_coded_loops_eq_gather.
+
 (** * compact targets *)
 
 (** the byte-level codec (built from the operations above) is the value-level codec *)
